@@ -1,8 +1,8 @@
 package rules
 
 import (
-	"go/types"
 	"go/token"
+	"go/types"
 	"strings"
 
 	"golang.org/x/tools/go/ssa"
@@ -34,8 +34,12 @@ func c15(c *Ctx) {
 		"a package of the wrong type, with forbidden kinds, unverified or incompatible would be installed")
 	if rec != nil {
 		es := calls(rec, "("+xp+pkgRevision+".Establisher).Establish")
-		parse := cfgx.Calls(rec, func(ci ssa.CallInstruction) bool { return strings.HasSuffix(cfgx.CalleeName(ci), "parser.Parser).Parse") })
-		lint := cfgx.Calls(rec, func(ci ssa.CallInstruction) bool { return strings.HasSuffix(cfgx.CalleeName(ci), "parser.Linter).Lint") })
+		parse := cfgx.Calls(rec, func(ci ssa.CallInstruction) bool {
+			return strings.HasSuffix(cfgx.CalleeName(ci), "parser.Parser).Parse")
+		})
+		lint := cfgx.Calls(rec, func(ci ssa.CallInstruction) bool {
+			return strings.HasSuffix(cfgx.CalleeName(ci), "parser.Linter).Lint")
+		})
 		if len(es) != 1 || len(parse) != 1 || len(lint) != 1 {
 			c.R.Unknown(load.FuncName(rec)+": Establish/Parse/Lint", c.pos(rec.Pos()), "expected exactly one of each")
 		} else {
@@ -76,7 +80,9 @@ func c15(c *Ctx) {
 			c.requireCross(site(e)+" compatible", e, compat, "ok(PackageCrossplaneCompatible) or ignoreCrossplaneConstraints")
 			// signature verification gate
 			var verified []cfgx.Edge
-			for _, x := range cfgx.Calls(rec, func(ci ssa.CallInstruction) bool { return strings.HasSuffix(cfgx.CalleeName(ci), "feature.Flags).Enabled") }) {
+			for _, x := range cfgx.Calls(rec, func(ci ssa.CallInstruction) bool {
+				return strings.HasSuffix(cfgx.CalleeName(ci), "feature.Flags).Enabled")
+			}) {
 				if s, ok := cfgx.ConstString(cfgx.CallArgs(x)[0]); ok && s == "EnableAlphaSignatureVerification" {
 					_, f := cfgx.CallCondEdges(x)
 					verified = append(verified, f...)
@@ -188,7 +194,7 @@ func c15(c *Ctx) {
 	}
 	for _, it := range []struct {
 		linter, is string
-		kinds  []string
+		kinds      []string
 	}{{"NewProviderLinter", "IsProvider", []string{"IsCRD", "IsValidatingWebhookConfiguration", "IsMutatingWebhookConfiguration"}}, {"NewConfigurationLinter", "IsConfiguration", []string{"IsXRD", "IsComposition"}}, {"NewFunctionLinter", "IsFunction", nil}} {
 		fn := c.fn("internal/xpkg", it.linter)
 		if fn == nil {
@@ -232,7 +238,9 @@ func c15(c *Ctx) {
 
 	c.R.Rule("R15.3", "cache hygiene", 9, "a truncated or foreign cache entry would be parsed as the package on the next reconcile")
 	if rec != nil {
-		parse := cfgx.Calls(rec, func(ci ssa.CallInstruction) bool { return strings.HasSuffix(cfgx.CalleeName(ci), "parser.Parser).Parse") })
+		parse := cfgx.Calls(rec, func(ci ssa.CallInstruction) bool {
+			return strings.HasSuffix(cfgx.CalleeName(ci), "parser.Parser).Parse")
+		})
 		var recv *ssa.UnOp
 		for _, b := range rec.Blocks {
 			for _, in := range b.Instrs {
@@ -241,7 +249,9 @@ func c15(c *Ctx) {
 				}
 			}
 		}
-		cacheDel := cfgx.Calls(rec, func(ci ssa.CallInstruction) bool { return strings.HasSuffix(cfgx.CalleeName(ci), "xpkg.PackageCache).Delete") })
+		cacheDel := cfgx.Calls(rec, func(ci ssa.CallInstruction) bool {
+			return strings.HasSuffix(cfgx.CalleeName(ci), "xpkg.PackageCache).Delete")
+		})
 		if len(parse) != 1 || recv == nil {
 			c.R.Unknown(load.FuncName(rec)+": parse / cache-write receive", c.pos(rec.Pos()), "not found")
 		} else {
@@ -292,7 +302,9 @@ func c15(c *Ctx) {
 			}
 		}
 		// cache.Get failure evicts and returns
-		getc := cfgx.Calls(rec, func(ci ssa.CallInstruction) bool { return strings.HasSuffix(cfgx.CalleeName(ci), "xpkg.PackageCache).Get") })
+		getc := cfgx.Calls(rec, func(ci ssa.CallInstruction) bool {
+			return strings.HasSuffix(cfgx.CalleeName(ci), "xpkg.PackageCache).Get")
+		})
 		if len(getc) == 1 {
 			ev := cfgx.ErrEvents(getc[0])
 			okEv := false
@@ -321,7 +333,9 @@ func c15(c *Ctx) {
 		var storeFn *ssa.Function
 		var store ssa.CallInstruction
 		for _, a := range rec.AnonFuncs {
-			for _, x := range cfgx.Calls(a, func(ci ssa.CallInstruction) bool { return strings.HasSuffix(cfgx.CalleeName(ci), "xpkg.PackageCache).Store") }) {
+			for _, x := range cfgx.Calls(a, func(ci ssa.CallInstruction) bool {
+				return strings.HasSuffix(cfgx.CalleeName(ci), "xpkg.PackageCache).Store")
+			}) {
 				storeFn, store = a, x
 			}
 		}
@@ -418,10 +432,14 @@ func c15(c *Ctx) {
 	c.R.Rule("R15.4", "image backend: one annotated layer, validated content, positioned on the package stream", 4, "content from the wrong layer or an unvalidated image would be installed")
 	if ib := c.method(pkgRevision, "ImageBackend", "Init"); ib != nil {
 		// second annotated layer => error: FlagPhis over the foundAnnotated flag
-		lbd := cfgx.Calls(ib, func(ci ssa.CallInstruction) bool { return strings.HasSuffix(cfgx.CalleeName(ci), "v1.Image).LayerByDigest") })
+		lbd := cfgx.Calls(ib, func(ci ssa.CallInstruction) bool {
+			return strings.HasSuffix(cfgx.CalleeName(ci), "v1.Image).LayerByDigest")
+		})
 		vl := calls(ib, "github.com/google/go-containerregistry/pkg/v1/validate.Layer")
 		vi := calls(ib, "github.com/google/go-containerregistry/pkg/v1/validate.Image")
-		unc := cfgx.Calls(ib, func(ci ssa.CallInstruction) bool { return strings.HasSuffix(cfgx.CalleeName(ci), "v1.Layer).Uncompressed") })
+		unc := cfgx.Calls(ib, func(ci ssa.CallInstruction) bool {
+			return strings.HasSuffix(cfgx.CalleeName(ci), "v1.Layer).Uncompressed")
+		})
 		ext := calls(ib, "github.com/google/go-containerregistry/pkg/v1/mutate.Extract")
 		if len(lbd) != 1 || len(vl) != 1 || len(vi) != 1 || len(unc) != 1 || len(ext) != 1 {
 			c.R.Unknown(load.FuncName(ib)+": shape", c.pos(ib.Pos()), "expected LayerByDigest, validate.Layer, Uncompressed, validate.Image, mutate.Extract")
@@ -563,7 +581,9 @@ func c15(c *Ctx) {
 		}
 	}
 	if ic := c.method("internal/version", "Versioner", "InConstraints"); ic != nil {
-		ck := cfgx.Calls(ic, func(ci ssa.CallInstruction) bool { return strings.HasSuffix(cfgx.CalleeName(ci), "semver.Constraints).Check") })
+		ck := cfgx.Calls(ic, func(ci ssa.CallInstruction) bool {
+			return strings.HasSuffix(cfgx.CalleeName(ci), "semver.Constraints).Check")
+		})
 		gsv := calls(ic, "(*"+xp+"internal/version.Versioner).GetSemVer")
 		if c.expect("Constraints.Check", len(ck), 1, ic) && c.expect("GetSemVer", len(gsv), 1, ic) {
 			c.R.Check(cfgx.CallArgs(ck[0])[0] == cfgx.TupleResult(gsv[0], 0), site(ck[0])+" checks running version", c.pos(ck[0].Pos()), "the constraint is checked against GetSemVer()", "the constraint is not checked against the running version")
@@ -571,7 +591,7 @@ func c15(c *Ctx) {
 	}
 	if bs := c.fn("internal/xpkg", "BuildObjectScheme"); bs != nil {
 		allowed := map[string]bool{
-			xp + "apis/apiextensions/v1":                                  true, // XRDs and Compositions
+			xp + "apis/apiextensions/v1":                                    true, // XRDs and Compositions
 			"k8s.io/apiextensions-apiserver/pkg/apis/apiextensions/v1":      true, // CRDs
 			"k8s.io/apiextensions-apiserver/pkg/apis/apiextensions/v1beta1": true, // CRDs (legacy)
 			"k8s.io/api/admissionregistration/v1":                           true, // webhook configurations
@@ -599,7 +619,9 @@ func c15(c *Ctx) {
 
 	c.R.Rule("R15.5", "Verified is only set true for a reason", 2, "an unverified package would pass the revision controller's gate")
 	if sr := c.method("internal/controller/pkg/signature", "Reconciler", "Reconcile"); sr != nil {
-		val := cfgx.Calls(sr, func(ci ssa.CallInstruction) bool { return strings.HasSuffix(cfgx.CalleeName(ci), "signature.Validator).Validate") })
+		val := cfgx.Calls(sr, func(ci ssa.CallInstruction) bool {
+			return strings.HasSuffix(cfgx.CalleeName(ci), "signature.Validator).Validate")
+		})
 		var noCfg []cfgx.Edge
 		for _, b := range sr.Blocks {
 			for _, in := range b.Instrs {
